@@ -28,6 +28,38 @@ IDENT = {
     "L1": ("Module:Foo bar", 828),
 }
 BODIES = ["b1", "b2"]
+# second universe: page names that contain a colon themselves (the namespace prefix ends at the FIRST colon), next to a
+# page whose name is the part after that colon
+IDENT_MAIN = IDENT
+IDENT_COLON = {
+    "T3": ("Template:Foo:bar", 10),
+    "T4": ("Template:bar", 10),
+    "L3": ("Module:data:sub", 828),
+}
+
+
+def set_universe(name):
+    global IDENT
+    IDENT = IDENT_COLON if name == "colon" else IDENT_MAIN
+
+
+def alphabet_colon():
+    ops = []
+    for i in IDENT_COLON:
+        for b in BODIES:
+            ops.append(("add", i, b))
+    ops.append(("addnp", "T3", "b2"))
+    ops.append(("redir", "T4", "T3"))
+    ops.append(("commit",))
+    set_universe("colon")
+    try:
+        for i in IDENT_COLON:
+            for v in variants(i):
+                ops.append(("probe", i, v[0]))
+    finally:
+        set_universe("main")
+    ops.append(("probe2", "T3", "alias"))
+    return ops
 
 
 def variants(ident):
@@ -246,7 +278,9 @@ def run_seq(seq, dbdir):
 
 def work(payload, skip, report):
     acc = Acc(PROP)
-    ops, prefixes, depth = payload
+    ops, prefixes, depth = payload[:3]
+    universe = payload[3] if len(payload) > 3 else "main"
+    set_universe(universe)
     dbdir = scratch_dir("c10")
     st, tr = set(), set()
     i = 0
@@ -265,7 +299,7 @@ def work(payload, skip, report):
             for t in trans:
                 tr.add(hash(t))
             for oracle, step, obs, exp in viol:
-                acc.violation(oracle, {"history": [list(o) for o in seq], "step": step}, obs, exp)
+                acc.violation(oracle, {"history": [list(o) for o in seq], "step": step, "universe": universe}, obs, exp)
             if i % 5000 == 1:
                 acc.sample([list(o) for o in seq])
     # the lru_cache on get_page keeps every context of this worker alive
@@ -279,6 +313,7 @@ def work(payload, skip, report):
 
 def replay(case):
     dbdir = scratch_dir("c10r")
+    set_universe(case.get("universe", "main"))
     try:
         seq = [tuple(o) for o in case["history"]]
         viol, _, _ = run_seq(seq, dbdir)
@@ -359,6 +394,13 @@ def main(run):
             for o1 in ops:
                 for o2 in ops:
                     chunks.append((ops, [(o1, o2)], depth))
+    cops = alphabet_colon()
+    for depth in range(1, (2 if run.tier == "quick" else 3) + 1):
+        if depth == 1:
+            chunks.append((cops, [()], 1, "colon"))
+        else:
+            for o in cops:
+                chunks.append((cops, [(o,)], depth, "colon"))
     # biggest chunks first
     chunks.sort(key=lambda c: -(len(c[0]) ** (c[2] - len(c[1][0]))))
     tchunks = [("transclude", [r], 2 if run.tier == "quick" else 3) for r in TR_READS]
@@ -381,8 +423,9 @@ def main(run):
                 "prefix-less adds, 3 redirects, commit, reopen, probes of every spelling variant of every identity, probes through "
                 "a second context) that end in a probe; each on a fresh real Wtp with a file database; states = distinct "
                 "(working, committed) contents of the dict reference model, transitions = distinct (state, op) pairs; every "
-                "probe compares get_page / page_exists / get_page_resolve_redirect / get_page_body / expand({{t}}) with the reference"
-                % (maxdepth, len(ops)),
+                "probe compares get_page / page_exists / get_page_resolve_redirect / get_page_body / expand({{t}}) with the reference; "
+                "plus all sequences of length <= %d over a %d-operation alphabet on a second universe of 3 identities whose names contain a colon"
+                % (maxdepth, len(ops), 2 if run.tier == "quick" else 3, len(cops)),
         "alphabet": [list(o) for o in ops],
         "exhaustive": True,
         "bound": "history length <= %d" % maxdepth,
